@@ -4,6 +4,7 @@ manifest, what was run: the sub-agent's own commands, my re-validation on the cu
 
 Usage: seed_build.py [--run-checks] [Cxx/k ...]"""
 import json
+import os
 import shutil
 import subprocess
 import sys
@@ -21,27 +22,12 @@ def sh(cmd, **kw):
     return subprocess.run(cmd, shell=True, capture_output=True, text=True, **kw)
 
 
-def run_checks(patch, pids):
-    st = sh('git -C /repo status --porcelain')
-    if st.stdout.strip():
-        raise SystemExit('REPO NOT CLEAN ' + st.stdout)
-    r = sh(f'git -C /repo apply {patch}')
-    if r.returncode != 0:
-        r = sh(f'cd /repo && patch -p1 --fuzz=3 < {patch}')
-        if r.returncode != 0:
-            sh('git -C /repo checkout -- . && git -C /repo clean -fdq')
-            return {'applies': False}
-    out = {}
-    try:
-        for pid in pids:
-            r = sh(f'cd /verif && ./check {pid} --tier quick', timeout=3000)
-            flagged = [l.strip() for l in r.stdout.splitlines() if (' tie ' in l or ' oracle ' in l) and 'violations=0' not in l]
-            out[pid] = {'exit': r.returncode, 'violation_lines': sum(1 for l in r.stdout.splitlines() if l.startswith('VIOLATION')),
-                        'flagged_by': flagged[:6]}
-    finally:
-        sh('git -C /repo checkout -- . && git -C /repo clean -fdq')
-        # checks write evidence/replays for the patched tree; the caller re-runs the checks on the clean tree afterwards
-    return out
+def run_checks(name, pids):
+    """each seeded change in its own scratch worktree of /repo's HEAD, checks pointed at it (harness/mutant_wt.py)"""
+    sys.path.insert(0, '/verif/harness')
+    import mutant_wt
+    _, res = mutant_wt.one(f'{name}:{",".join(pids)}')
+    return res
 
 
 def main():
@@ -87,10 +73,19 @@ def main():
         }
         if not confirmed:
             m['status_note'] = old.get('status_note') or OBSOLETE.get(name, 'no longer breaks the property on the current tree')
+        last = {}
+        if os.path.exists('/verif/.work/mutant_wt_last.json'):
+            last = json.loads(open('/verif/.work/mutant_wt_last.json').read())
+        if confirmed and not do_run and name in last and 'applies' not in last[name] and 'error' not in last[name]:
+            m['checks'] = last[name]
+            m['checks_run_as'] = ('harness/mutant_wt.py: scratch worktree of /repo HEAD with seeded/%s/patch.diff applied; VERIF_REPO=<worktree> '
+                                  './check <pid> --tier quick (equivalent to: git -C /repo apply <patch>; ./check <pid>; '
+                                  'git -C /repo checkout -- .)') % sid
         if do_run and confirmed:
             pids = [m['property']] + ALSO.get(name, [])
-            m['checks'] = run_checks(dst / 'patch.diff', pids)
-            m['checks_run_as'] = 'git -C /repo apply seeded/%s/patch.diff; ./check <pid> --tier quick; git -C /repo checkout -- .' % sid
+            m['checks'] = run_checks(name, pids)
+            m['checks_run_as'] = ('scratch worktree of /repo HEAD with seeded/%s/patch.diff applied; VERIF_REPO=<worktree> ./check <pid> --tier quick '
+                                  '(equivalent to: git -C /repo apply <patch>; ./check <pid>; git -C /repo checkout -- .)') % sid
             print(sid, {p: (r['exit'], r['flagged_by'][:1]) for p, r in m['checks'].items()} if isinstance(m['checks'], dict) and 'applies' not in m['checks'] else m['checks'], flush=True)
         (dst / 'meta.json').write_text(json.dumps(m, indent=1) + '\n')
 
@@ -103,6 +98,8 @@ OBSOLETE = {
     'C14/B': 'does not apply: the image writer it changed was rewritten by fix 277df5b (image built from an address->byte map)',
     'C15/A': 'made harmless by fix f3e7cef: substitution is whole-word, so the order in which symbols are substituted no longer matters; '
              'demo passes with the patch',
+    'C15/B': 'no longer applies after fix 08ab61c (enumeration keys are escaped and the whole operand must match, so the order in which '
+             'the keys are joined - which the change made hash dependent - no longer influences matching)',
     'C16/B': 'made harmless by fix 374d186 (the compact hex printer writes address records from the addresses of the bytes, not from '
              'the order in which lines arrive); demo passes with the patch',
 }
